@@ -312,7 +312,7 @@ def job_cause(W, rec, ex, owners, cause):
         return 'send-failed'
     dead = unfinished_dead_owners(W, owners, W.k.steps)
     if dead:
-        return 'worker-died-in-task'
+        return 'worker-died-in-task' + _stuck_suffix(W.k, cause)
     if not owners:
         return 'never-accepted:' + cause
     return 'accepted-not-finished:' + cause
@@ -471,7 +471,7 @@ def judge_imap(W, rec, ex, owners, cause):
         dead = dead[reported:]
         cs = rec.chunksize or 1
         nparts = (len(rec.items) + cs - 1) // cs
-        jc = 'worker-died-in-task' if dead else ('never-accepted:' + cause if len(owners) < nparts
+        jc = 'worker-died-in-task' + _stuck_suffix(k, cause) if dead else ('never-accepted:' + cause if len(owners) < nparts
                                                  else 'accepted-not-finished:' + cause)
         W.bad('C01.a', 'unresolved:%s:%s' % (rec.kind, jc),
               'iterator of job %r stopped delivering: %r' % (rec.uid, [o[1] for o in rec.observed][-4:]))
